@@ -99,8 +99,12 @@ end Dep
 open Dep in
 def handleDependency : Sexp → Option Sexp
   | .list [.atom "dep_static", p, .list ins] => some <|
-    withObject p ins fun _ names st =>
-      okS [predsS (sortDedup st.notStatic), predsS ((sortDedup names.preds).filter st.hasDomain)]
+    withObject p ins fun prg names st =>
+      -- the predicates asked about are those of the program's atoms and the inputs (the `#show p/n.` signatures that
+      -- `UniqueNames` also knows since fix eec1903 are not atoms of the program)
+      let inputs := (ins.mapM Pred.ofSexp).getD []
+      let _ := names
+      okS [predsS (sortDedup st.notStatic), predsS ((sortDedup (inputs ++ prg.allPreds)).filter st.hasDomain)]
   | .list [.atom "dep_info", p, .list ins] => some <|
     withObject p ins fun _ _ st =>
       okS [predsS (sortDedup st.notStatic), predsS (sortDedup st.tooComplex),
